@@ -10,6 +10,7 @@
 #include <stdlib.h>
 #include <string.h>
 #include <unistd.h>
+#include <signal.h>
 #include <fcntl.h>
 #include <sys/wait.h>
 
@@ -27,6 +28,7 @@ int __real_pthread_mutex_unlock(pthread_mutex_t *m);
 #    define HUNLOCK(m) pthread_mutex_unlock(m)
 #endif
 
+static void s_progress(void); /* re-arms the wall-clock watchdog: the current long op is making progress */
 #define HUGE_TOUCH_LIMIT ((size_t)1 << 20)
 #define HUGE_BACKED_LIMIT ((size_t)1 << 41)
 
@@ -763,6 +765,9 @@ static void s_history(long steps, uint64_t seed, size_t maxlive, long phase) {
     uint64_t rng = seed * 0x9E3779B97F4A7C15ull + 0x1234567ull;
     long step = 0, n_big = 0, n_small = 0;
     for (; step < steps && !what[0]; ++step) {
+        if ((step & 1023) == 0) {
+            s_progress();
+        }
         unsigned grow = ((step / phase) % 2 == 0) ? 70 : 30;
         if (live < maxlive && (live == 0 || s_next(&rng) % 100 < grow)) {
             size_t n = 1 + (size_t)(s_next(&rng) % 700);
@@ -956,6 +961,8 @@ static void *s_sc_worker(void *arg) {
     return NULL;
 }
 
+static size_t s_sc_active_at_join;
+
 static void s_sc_main(void *arg) {
     (void)arg;
     pthread_t th[SC_MAXT];
@@ -965,11 +972,16 @@ static void s_sc_main(void *arg) {
     for (int i = 0; i < s_sc.nthreads; ++i) {
         pthread_join(th[i], NULL);
     }
+    /* the metric is read INSIDE the scheduled run, twice: a bin mutex it leaves locked dead-locks the second read,
+     * which the scheduler reports at once instead of the process hanging */
+    s_sc_active_at_join = aws_small_block_allocator_bytes_active(s_sba);
+    (void)aws_small_block_allocator_bytes_active(s_sba);
 }
 
 static void s_sc_run(const struct ds_config *cfg, struct sc_verdict *v) {
     static struct blk all[SC_MAXT * SC_MAXB + SC_MAXB];
     memset(v, 0, sizeof(*v));
+    s_progress(); /* one schedule = one unit of progress of `explore` / `run` */
     s_new(true, 0);
     /* main pre-acquires and hands the blocks out */
     struct blk mainb[SC_MAXB];
@@ -1038,7 +1050,7 @@ static void s_sc_run(const struct ds_config *cfg, struct sc_verdict *v) {
     for (size_t k = 0; k < n; ++k) {
         exp += all[k].cls;
     }
-    size_t act = aws_small_block_allocator_bytes_active(s_sba);
+    size_t act = s_sc_active_at_join;
     for (size_t k = 0; k < n; ++k) {
         aws_mem_release(s_sba, all[k].ptr);
     }
@@ -1206,6 +1218,9 @@ static void s_parent_check(int kind, long steps, uint64_t seed) {
     long base = s_backend_live;
     size_t par_base = s_par_n;
     for (long step = 0; step < steps && !what[0]; ++step) {
+        if ((step & 255) == 0) {
+            s_progress();
+        }
         uint64_t r = s_next(&rng) % 100;
         size_t want = sz[s_next(&rng) % (sizeof(sz) / sizeof(sz[0]))];
         if (n < 48 && (r < 35 || n == 0)) {
@@ -1291,15 +1306,96 @@ static void s_parent_check(int kind, long steps, uint64_t seed) {
     }
 }
 
+/* ------------------------------------------------------------------ wall-clock watchdog
+ * An allocator that dead-locks itself ("acquire never returns": e.g. a bin mutex left locked) would otherwise cost the
+ * caller's whole timeout per case.  Every op is given WATCHDOG_S seconds (the long ops stress / explore / history /
+ * parent WATCHDOG_LONG_S); the handler reports the case and leaves.  Each such exit is recorded in the file named by
+ * SBA_HANG_FILE (one byte per hang); once HANG_LIMIT hangs are on record the remaining cases are not run. */
+#define WATCHDOG_S 8
+#define WATCHDOG_LONG_S 20
+#define HANG_LIMIT 3
+static char s_case_name[24] = "?";
+static unsigned s_armed_s;
+
+static void s_on_alarm(int sig) {
+    (void)sig;
+    static const char m1[] = "\nP MONITOR wall-clock watchdog: no progress for ";
+    static const char m2[] = " s in case ";
+    static const char m3[] = " (an operation of the allocator does not return)\n";
+    char num[4] = {(char)('0' + s_armed_s / 10), (char)('0' + s_armed_s % 10), 0, 0};
+    ssize_t r = write(1, m1, sizeof(m1) - 1);
+    r = write(1, num[0] == '0' ? num + 1 : num, num[0] == '0' ? 1 : 2);
+    r = write(1, m2, sizeof(m2) - 1);
+    r = write(1, s_case_name, strlen(s_case_name));
+    r = write(1, m3, sizeof(m3) - 1);
+    const char *f = getenv("SBA_HANG_FILE");
+    if (f) {
+        int fd = open(f, O_WRONLY | O_CREAT | O_APPEND, 0644);
+        if (fd >= 0) {
+            r = write(fd, "h", 1);
+            close(fd);
+        }
+    }
+    (void)r;
+    _exit(3);
+}
+
+static int s_hangs_on_record(void) {
+    const char *f = getenv("SBA_HANG_FILE");
+    if (!f) {
+        return 0;
+    }
+    int fd = open(f, O_RDONLY);
+    if (fd < 0) {
+        return 0;
+    }
+    char buf[64];
+    ssize_t n = read(fd, buf, sizeof(buf));
+    close(fd);
+    return n > 0 ? (int)n : 0;
+}
+
+static void s_progress(void) {
+    if (s_armed_s) {
+        alarm(s_armed_s);
+    }
+}
+
+static void s_arm(unsigned seconds) {
+    fflush(stdout); /* what was printed so far must not be lost when the handler leaves with _exit */
+    s_armed_s = seconds;
+    alarm(seconds);
+}
+
 /* ------------------------------------------------------------------ interpreter */
 int main(void) {
     char *t[HC_MAX_TOKS];
     int n;
     aws_common_library_init(hc_allocator());
-    while ((n = hc_next_line(t)) >= 0) {
+    bool skip_case = false;
+    signal(SIGALRM, s_on_alarm);
+    for (;;) {
+        alarm(0); /* waiting for input is not the allocator's time */
+        if ((n = hc_next_line(t)) < 0) {
+            break;
+        }
+        bool long_op = !strcmp(t[0], "stress") || !strcmp(t[0], "explore") || !strcmp(t[0], "history") || !strcmp(t[0], "parent");
+        if (skip_case && strcmp(t[0], "case")) {
+            continue;
+        }
+        unsigned long_s = WATCHDOG_LONG_S;
+        if (getenv("SBA_WATCHDOG_LONG") && atoi(getenv("SBA_WATCHDOG_LONG")) > 0 && atoi(getenv("SBA_WATCHDOG_LONG")) < 100) {
+            long_s = (unsigned)atoi(getenv("SBA_WATCHDOG_LONG")); /* thorough tier: longer stress / explore / history ops */
+        }
+        s_arm(long_op ? long_s : WATCHDOG_S);
         if (!strcmp(t[0], "case")) {
             s_reset();
             hc_case_begin(t[1]);
+            snprintf(s_case_name, sizeof(s_case_name), "%s", t[1]);
+            skip_case = s_hangs_on_record() >= HANG_LIMIT;
+            if (skip_case) {
+                printf("P MONITOR not run: %d earlier cases of this run hung\n", HANG_LIMIT);
+            }
         } else if (!strcmp(t[0], "new") && (n == 2 || (n == 3 && s_parent_kind(t[2]) >= 0)) && !s_sba &&
                    (!strcmp(t[1], "mt=0") || !strcmp(t[1], "mt=1"))) {
             s_new(!strcmp(t[1], "mt=1"), n == 3 ? s_parent_kind(t[2]) : 0);
@@ -1479,6 +1575,8 @@ int main(void) {
         }
         fflush(stdout);
     }
+    s_arm(WATCHDOG_S);
     s_reset();
+    alarm(0);
     return 0;
 }
